@@ -52,7 +52,7 @@ func render(v interface{}) string {
 	return "?"
 }
 
-const nOps = 14
+const nOps = 15
 
 func run(t task) (out string) {
 	defer func() {
@@ -110,6 +110,14 @@ func run(t task) (out string) {
 		return fmt.Sprint(a, p, err, b, q, err2)
 	case 12:
 		return rjson.StdLibCompatibleString(string(d)) + string(rjson.StdLibCompatibleStringBytes(d, nil))
+	case 13:
+		// String methods and other value-only API: every TokenType value, also the ones no reader returns
+		var sb strings.Builder
+		for v := 0; v < 256; v++ {
+			sb.WriteString(rjson.TokenType(v).String())
+			sb.WriteByte(';')
+		}
+		return sb.String()
 	default:
 		t1, p, err := rjson.NextToken(d)
 		t2, q, err2 := rjson.NextTokenType(d)
@@ -176,12 +184,44 @@ func main() {
 	for i := 0; i < *nTasks; i++ {
 		tasks = append(tasks, task{op: r.Intn(nOps), data: docs[r.Intn(len(docs))]})
 	}
+	// first contact happens concurrently: anything initialised or cached lazily on first use is then written by several
+	// goroutines at once (the race detector sees it); the results are kept and compared below
+	type rec struct {
+		i   int
+		out string
+	}
+	first := make([][]rec, *goroutines)
+	{
+		var wg sync.WaitGroup
+		for g := 0; g < *goroutines; g++ {
+			wg.Add(1)
+			go func(g int) {
+				defer wg.Done()
+				rr := rand.New(rand.NewSource(*seed*977 + int64(g)))
+				for k := 0; k < len(tasks)/8; k++ {
+					i := rr.Intn(len(tasks))
+					first[g] = append(first[g], rec{i, run(tasks[i])})
+				}
+			}(g)
+		}
+		wg.Wait()
+	}
 	want := make([]string, len(tasks))
 	for i, t := range tasks {
 		want[i] = run(t)
 	}
 	bad := 0
 	var mu sync.Mutex
+	for g := range first {
+		for _, r := range first[g] {
+			if r.out != want[r.i] {
+				if bad < 10 {
+					fmt.Printf("MISMATCH (first contact) op=%d data=%q\n  concurrent: %.200s\n  sequential: %.200s\n", tasks[r.i].op, tasks[r.i].data, r.out, want[r.i])
+				}
+				bad++
+			}
+		}
+	}
 	for round := 0; round < *rounds; round++ {
 		var wg sync.WaitGroup
 		for g := 0; g < *goroutines; g++ {
